@@ -154,9 +154,10 @@ theorem holds_cons_inv (st : List (Cid × Blk)) (c : Cid) (b : Blk) (x : Cid) (h
     have : (c == x) = false := by simp; exact fun h' => hx h'.symm
     simpa [this] using h
 
-/-- a (re-)run of the load of `c` adds at most the block of `c` to the store -/
+/-- a (re-)run of the load of `c` adds at most the block of `c` to the store, and only when it answers with data -/
 theorem run_store_origin (s : State) (p : Path) (c : Cid) :
-    ∀ x, holds (run s p c).1.store x = true → holds s.store x = true ∨ x = c := by
+    ∀ x, holds (run s p c).1.store x = true →
+      holds s.store x = true ∨ (x = c ∧ ∃ r, (run s p c).2 = .done r ∧ r.err = none) := by
   have hw := waitRemote_rs (s.rq.q.length + 1) s
   unfold run
   dsimp only
@@ -192,12 +193,13 @@ theorem run_store_origin (s : State) (p : Path) (c : Cid) :
             simp only at hx
             rcases holds_cons_inv _ _ _ _ hx with h | h
             · left; rw [hra.2] at h; rw [← hst2]; exact h
-            · exact Or.inr h
+            · exact Or.inr ⟨h, _, rfl, rfl⟩
 
 theorem load_store_origin (s : State) (p : Path) (c : Cid) :
-    ∀ x, holds (load s p c).1.store x = true → holds s.store x = true ∨ x = c := by
+    ∀ x, holds (load s p c).1.store x = true →
+      holds s.store x = true ∨ (x = c ∧ ∃ r, (load s p c).2 = .done r ∧ r.err = none) := by
   intro x hx
-  rw [load_eq] at hx
+  rw [load_eq] at hx ⊢
   have := run_store_origin (prologue s) p c x hx
   rw [(prologue_fields s).2.2.1] at this
   exact this
@@ -290,6 +292,7 @@ open GS.Loader GS.Requestor GS.PauseResume
 structure Q (lt : LT) (st0 : List (Cid × Blk)) (r : Requestor.State) (loaded : LT) : Prop where
   mono  : ∀ c, holds st0 c = true → holds r.L.store c = true
   orig  : ∀ c, holds r.L.store c = true → holds st0 c = true ∨ ∃ m ∈ lt, m.cid = c
+  origL : r.phase = .running → ∀ c, holds r.L.store c = true → holds st0 c = true ∨ ∃ m ∈ loaded, m.cid = c
   split : lt = loaded ++ r.todo
   count : r.nBlocks ≤ loaded.length
   pend  : ∀ p c, r.L.pending = some (p, c) →
@@ -301,6 +304,7 @@ theorem Q.frame {lt : LT} {st0 : List (Cid × Blk)} {r r' : Requestor.State} {lo
     (hpd : r'.L.pending = r.L.pending) (hmra : r'.L.mra = r.L.mra) (hrec : r'.L.record = r.L.record)
     (hst : r'.L.store = r.L.store) : Q lt st0 r' loaded := by
   refine ⟨fun c hc => by rw [hst]; exact h.mono c hc, fun c hc => h.orig c (by rw [← hst]; exact hc),
+    fun hr c hc => h.origL (hph hr) c (by rw [← hst]; exact hc),
     by rw [htodo]; exact h.split, by rw [hnb]; exact h.count, ?_, ?_⟩
   · intro p c hp
     rw [hpd] at hp
@@ -365,9 +369,14 @@ theorem Q_after (lt : LT) (st0 : List (Cid × Blk)) (r : Requestor.State) (loade
   have hm' : ∀ c, holds st0 c = true → holds base.L.store c = true := fun c hc => hmono c (hq.mono c hc)
   have ho' : ∀ c, holds base.L.store c = true → holds st0 c = true ∨ ∃ m ∈ lt, m.cid = c := fun c hc =>
     (horig c hc).elim (hq.orig c) (fun h => Or.inr ⟨n, hnlt, h.symm⟩)
+  have hoL : ∀ ld2 : LT, (∀ m ∈ loaded, m ∈ ld2) → n ∈ ld2 → r.phase = .running →
+      ∀ c, holds base.L.store c = true → holds st0 c = true ∨ ∃ m ∈ ld2, m.cid = c := fun ld2 h1 h2 hr c hc =>
+    (horig c hc).elim (fun h => (hq.origL hr c h).elim Or.inl (fun ⟨m, hm, e⟩ => Or.inr ⟨m, h1 m hm, e⟩))
+      (fun h => Or.inr ⟨n, h2, h.symm⟩)
   rcases handle_cases base n rest res with ⟨he, _, hs⟩ | ⟨he, _, hs⟩ | ⟨_, hph, htd, hnb, hpd, hsto⟩
   · rw [hs]
-    refine ⟨loaded ++ [n], hm', ho', ?_, ?_, ?_, ?_⟩
+    refine ⟨loaded ++ [n], hm', ho',
+      fun hr => hoL _ (fun m hm => List.mem_append_left _ hm) (by simp) (by rw [← hbp]; exact hr), ?_, ?_, ?_, ?_⟩
     · simp only; rw [hq.split, htodo]; simp
     · simp only [List.length_append, List.length_singleton]; have := hq.count; omega
     · intro p c hp; simp only at hp; rw [hpn] at hp; cases hp
@@ -388,7 +397,8 @@ theorem Q_after (lt : LT) (st0 : List (Cid × Blk)) (r : Requestor.State) (loade
         · exact hmono _ (hrl.held m hm)
         · exact hok he
   · rw [hs]
-    refine ⟨loaded ++ n :: subOf n rest, hm', ho', ?_, ?_, ?_, ?_⟩
+    refine ⟨loaded ++ n :: subOf n rest, hm', ho',
+      fun hr => hoL _ (fun m hm => List.mem_append_left _ hm) (by simp) (by rw [← hbp]; exact hr), ?_, ?_, ?_, ?_⟩
     · simp only; rw [hq.split, htodo, List.append_assoc, List.cons_append, sub_skip]
     · simp only [List.length_append, List.length_cons]; have := hq.count; omega
     · intro p c hp; simp only at hp; rw [hpn] at hp; cases hp
@@ -396,7 +406,8 @@ theorem Q_after (lt : LT) (st0 : List (Cid × Blk)) (r : Requestor.State) (loade
       simp only [List.length_append, List.length_cons] at hn
       have := hq.count
       omega
-  · refine ⟨loaded, by rw [hsto]; exact hm', by rw [hsto]; exact ho', ?_, ?_, ?_, ?_⟩
+  · refine ⟨loaded, by rw [hsto]; exact hm', by rw [hsto]; exact ho',
+      fun hr => (by rw [hph] at hr; cases hr), ?_, ?_, ?_, ?_⟩
     · rw [htd, hbt]; exact hq.split
     · rw [hnb, hbn]; exact hq.count
     · intro p c hp; rw [hpd, hpn] at hp; cases hp
@@ -415,13 +426,16 @@ theorem Q_loadNode (lt : LT) (st0 : List (Cid × Blk)) (r : Requestor.State) (lo
   generalize Loader.load r.L n.path n.cid = ld at hlr hlrec hlp hso
   obtain ⟨l1, out⟩ := ld
   simp only at hlr hlrec hlp hso
+  have hsoW : ∀ x, holds l1.store x = true → holds r.L.store x = true ∨ x = n.cid := fun x hx =>
+    (hso x hx).elim Or.inl (fun h => Or.inr h.1)
   cases out with
   | blocked =>
     dsimp only
     obtain ⟨h1, h2, h3, h4⟩ := hlr.1 rfl
     refine ⟨fun _ => ?_, fun res h => by cases h⟩
     refine ⟨fun c hc => by simp only; rw [h3]; exact hq.mono c hc,
-      fun c hc => hq.orig c (by simp only at hc; rw [h3] at hc; exact hc), hq.split, hq.count, ?_, ?_⟩
+      fun c hc => hq.orig c (by simp only at hc; rw [h3] at hc; exact hc),
+      fun hr c hc => hq.origL hr c (by simp only at hc; rw [h3] at hc; exact hc), hq.split, hq.count, ?_, ?_⟩
     · intro p c hp
       simp only at hp
       rw [h4] at hp
@@ -435,6 +449,18 @@ theorem Q_loadNode (lt : LT) (st0 : List (Cid × Blk)) (r : Requestor.State) (lo
     obtain ⟨g1, g2, g3, g4⟩ := hlr.2 res rfl
     split
     · -- first local miss: online, request, RetryLastLoad
+      rename_i hmissc
+      have hmissE : res.err ≠ none := by
+        intro he
+        have : isMiss res = false := by unfold isMiss; rw [he]
+        rw [this] at hmissc
+        cases hmissc
+      have hl1s : ∀ x, holds l1.store x = true → holds r.L.store x = true := fun x hx =>
+        (hso x hx).elim id (fun h => by
+          obtain ⟨_, r0, hr0, he0⟩ := h
+          simp only [Out.done.injEq] at hr0
+          subst hr0
+          exact absurd he0 hmissE)
       obtain ⟨_, u, hm⟩ := hlp.2 res rfl
       have hm' : (Loader.setOnline l1 true).mra = some ⟨n.cid, n.path, res.err.isNone, u⟩ := by
         rw [(setOnline_frame l1 true).2.1]; exact hm
@@ -455,10 +481,10 @@ theorem Q_loadNode (lt : LT) (st0 : List (Cid × Blk)) (r : Requestor.State) (lo
         dsimp only
         obtain ⟨h1, h2, h3, h4⟩ := hlr2.1 rfl
         refine ⟨fun _ => ?_, fun res h => by cases h⟩
-        have ho3 : ∀ x, holds l3.store x = true → holds r.L.store x = true ∨ x = n.cid := fun x hx =>
-          (hso2 x hx).elim (fun h => hso x (by rw [← hs2st]; exact h)) Or.inr
+        have ho3 : ∀ x, holds l3.store x = true → holds r.L.store x = true := fun x hx =>
+          hl1s x (by rw [← hs2st, ← h3]; exact hx)
         refine ⟨fun c hc => by simp only; rw [h3, hs2st]; exact g3 c (hq.mono c hc),
-          fun c hc => (ho3 c hc).elim (hq.orig c) (fun h => Or.inr ⟨n, hnlt, h.symm⟩), hq.split, hq.count, ?_, ?_⟩
+          fun c hc => hq.orig c (ho3 c hc), fun hr c hc => hq.origL hr c (ho3 c hc), hq.split, hq.count, ?_, ?_⟩
         · intro p c hp
           simp only at hp
           rw [h4] at hp
@@ -478,12 +504,12 @@ theorem Q_loadNode (lt : LT) (st0 : List (Cid × Blk)) (r : Requestor.State) (lo
         exact Q_after lt st0 r loaded n rest hq htodo _ r2 rfl rfl rfl
           (fun hr hn => by simp only; rw [k1, hs2rec, (hq.rl hr hn).recd])
           k2 (fun x hx => k3 x (by rw [hs2st]; exact g3 x hx)) k4
-          (fun x hx => (hso2 x hx).elim (fun h => hso x (by rw [← hs2st]; exact h)) Or.inr)
+          (fun x hx => (hso2 x hx).elim (fun h => hsoW x (by rw [← hs2st]; exact h)) (fun h => Or.inr h.1))
     · refine ⟨fun h => (by cases h), fun res' h => ?_⟩
       simp only [Option.some.injEq] at h
       subst h
       exact Q_after lt st0 r loaded n rest hq htodo _ res rfl rfl rfl
-        (fun hr hn => by simp only; rw [g1, (hq.rl hr hn).recd]) g2 g3 g4 hso
+        (fun hr hn => by simp only; rw [g1, (hq.rl hr hn).recd]) g2 g3 g4 hsoW
 
 end GS.C06
 
@@ -554,7 +580,8 @@ theorem Q_wake (lt : LT) (st0 : List (Cid × Blk)) (r : Requestor.State) (loaded
         simp only [Prod.mk.injEq, and_true] at h
         subst h
         refine ⟨fun c0 hc => by simp only; rw [h3]; exact hq.mono c0 hc,
-          fun c0 hc => hq.orig c0 (by simp only at hc; rw [h3] at hc; exact hc), hq.split, hq.count, ?_, ?_⟩
+          fun c0 hc => hq.orig c0 (by simp only at hc; rw [h3] at hc; exact hc),
+          fun hr c0 hc => hq.origL hr c0 (by simp only at hc; rw [h3] at hc; exact hc), hq.split, hq.count, ?_, ?_⟩
         · intro p' c' hp'
           simp only at hp'
           rw [h4] at hp'
@@ -581,7 +608,7 @@ theorem Q_wake (lt : LT) (st0 : List (Cid × Blk)) (r : Requestor.State) (loaded
             show (r.L.record).record _ _ _ = _
             have h0 : recP r.L.record none = r.L.record := rfl
             rw [← h0, this])
-          k2 k3 k4 hso
+          k2 k3 k4 (fun x hx => (hso x hx).elim Or.inl (fun h => Or.inr h.1))
 
 theorem resume_Q (lt : LT) (st0 : List (Cid × Blk)) (r : Requestor.State) (h : QE lt st0 r) : QE lt st0 (Requestor.resume r).1 := by
   obtain ⟨loaded, hq⟩ := h
@@ -657,7 +684,7 @@ theorem feed_Q (lt : LT) (st0 : List (Cid × Blk)) : ∀ (msgs : List Requestor.
 
 theorem Q_start (st : List (Cid × Blk)) (lt : LT) (u : Nat) :
     Q lt st ({ ({ L := { store := st } } : Requestor.State) with todo := lt, phase := .running, userSkip := u }) [] := by
-  refine ⟨fun c h => h, fun c h => Or.inl h, rfl, Nat.le_refl _, fun p c h => (by cases h), fun _ _ => ⟨rfl, fun m hm => (by cases hm)⟩⟩
+  refine ⟨fun c h => h, fun c h => Or.inl h, fun _ c h => Or.inl h, rfl, Nat.le_refl _, fun p c h => (by cases h), fun _ _ => ⟨rfl, fun m hm => (by cases hm)⟩⟩
 
 theorem request_Q (st : List (Cid × Blk)) (lt : LT) (u : Nat) :
     QE lt st (Requestor.request { L := { store := st } } lt u).1 := by
@@ -957,7 +984,8 @@ theorem drive_reopen (lt : LT) (st0 : List (Cid × Blk)) : ∀ (fuel : Nat) (r :
             simp only
             have hq2 : ∃ loaded', Q lt st0 (handle { r with L := l1 } n rest res).1 loaded' :=
               Q_after lt st0 r loaded n rest hs.q htodo _ res rfl rfl rfl
-                (fun hr hn => by simp only; rw [g1, (hs.q.rl hr hn).recd]) g2 g3 g4 hso
+                (fun hr hn => by simp only; rw [g1, (hs.q.rl hr hn).recd]) g2 g3 g4
+                (fun x hx => (hso x hx).elim Or.inl (fun h => Or.inr h.1))
             rw [handle_data _ n rest res he] at hq2
             simp only at hq2
             obtain ⟨loaded', hq'⟩ := hq2
